@@ -276,6 +276,8 @@ class Component(CaselessDict):
                 else:
                     oldval.append(value)
                     value = oldval
+            elif isinstance(value, list):
+                value = [oldval] + value
             else:
                 value = [oldval, value]
         self[name] = value
